@@ -101,7 +101,10 @@ def reentrant(kind):
     for _ in range(3):
         if obs.event_queue.empty():
             break
-        obs.dispatch_events(obs.event_queue)
+        try:
+            obs.dispatch_events(obs.event_queue)
+        except Exception as e:  # noqa: BLE001
+            return [f"{kind}() from inside a callback: dispatch_events raised {type(e).__name__}: {e} (the observer thread would die)"]
     out = []
     late = [n for n, after in log if after and n != state.get("remover")]
     if late:
@@ -211,6 +214,45 @@ def every_emitter_of_the_watch_dies():
     return out
 
 
+def slow_emitter_from_callback(kind):
+    """the same guarantee when the removal is made by a handler from inside its callback (on the observer's own thread):
+    when unschedule() / unschedule_all() / stop() returns to the handler the emitter thread of the removed watch is dead"""
+    seen = {}
+
+    class Slow(EventEmitter):
+        def queue_events(self, timeout):
+            self.stopped_event.wait()
+            time.sleep(0.25)    # winding down takes a while (a final poll / blocking read)
+
+    class H(FileSystemEventHandler):
+        def on_any_event(self, event):
+            if "alive" in seen:
+                return
+            if kind == "unschedule":
+                obs.unschedule(w)
+            elif kind == "unschedule_all":
+                obs.unschedule_all()
+            else:
+                obs.stop()
+            seen["alive"] = em.is_alive()
+    obs = BaseObserver(Slow, timeout=0.05)
+    obs.start()
+    w = obs.schedule(H(), "/w")
+    em = next(iter(obs.emitters))
+    em.queue_event(FileCreatedEvent("/w/x"))
+    deadline = time.time() + 5
+    while "alive" not in seen and time.time() < deadline:
+        time.sleep(0.02)
+    em.join(2)
+    obs.stop()
+    obs.join(2)
+    if "alive" not in seen:
+        return [f"{kind}() called from a handler callback did not return within 5 s"]
+    if seen["alive"]:
+        return [f"{kind}() called from inside a handler callback returned while the emitter thread of the removed watch was still alive"]
+    return []
+
+
 def slow_emitter(kind):
     gate = {"returned": None}
 
@@ -247,9 +289,9 @@ def slow_emitter(kind):
 def main():
     if REPLAY is not None:
         c = REPLAY
-        pr = cross_thread(c["op"]) if c["kind"] == "cross" else reentrant(c["op"]) if c["kind"] == "reentrant" else second_stop_returns_early() if c["kind"] == "second-stop" else stopped_before_start() if c["kind"] == "stopped-before-start" else every_emitter_of_the_watch_dies() if c["kind"] == "every-emitter" else slow_emitter(c["op"])
+        pr = cross_thread(c["op"]) if c["kind"] == "cross" else reentrant(c["op"]) if c["kind"] == "reentrant" else second_stop_returns_early() if c["kind"] == "second-stop" else stopped_before_start() if c["kind"] == "stopped-before-start" else every_emitter_of_the_watch_dies() if c["kind"] == "every-emitter" else slow_emitter_from_callback(c["op"]) if c["kind"] == "slow-callback" else slow_emitter(c["op"])
         replay_result(bool(pr), pr[:3])
-    bat = Battery({"cross-thread removal": ["unschedule", "remove", "unschedule_all", "stop"], "park point": "right after the dispatcher's membership re-check", "slow emitter": ["unschedule", "unschedule_all", "stop"]})
+    bat = Battery({"cross-thread removal": ["unschedule", "remove", "unschedule_all", "stop"], "park point": "right after the dispatcher's membership re-check", "slow emitter": ["unschedule", "unschedule_all", "stop"], "slow emitter, removal from a callback": ["unschedule", "unschedule_all", "stop"]})
     for kind in ("unschedule", "remove", "unschedule_all", "stop"):
         bat.case(("cross", kind))
         pr = cross_thread(kind)
@@ -277,6 +319,11 @@ def main():
         pr = slow_emitter(kind)
         if pr:
             bat.fail("C05.emitter-alive-after-removal", pr[0], {"kind": "slow", "op": kind}, "BaseObserver._remove_emitter")
+    for kind in ("unschedule", "unschedule_all", "stop"):
+        bat.case(("slow-callback", kind))
+        pr = slow_emitter_from_callback(kind)
+        if pr:
+            bat.fail("C05.emitter-alive-after-removal-from-callback", pr[0], {"kind": "slow-callback", "op": kind}, "BaseObserver._remove_emitter")
     bat.finish()
 
 
